@@ -75,6 +75,12 @@ func tryReplay(w *world, o *vc.OblResult, ex *vc.Exec, rp *Replay) {
 	cmd.Env = append(os.Environ(), "GOFLAGS=-mod=mod", "GOPROXY=off", "GOSUMDB=off", "GOTOOLCHAIN=local")
 	out, _ := cmd.CombinedOutput()
 	rp.TestOutput = string(out)
+	rp.Package = rel
+	for _, line := range strings.Split(string(out), "\n") {
+		if strings.HasPrefix(line, "GOVC-REPLAY ") {
+			rp.Expect = append(rp.Expect, line)
+		}
+	}
 	observed := map[int]string{}
 	panicked := false
 	for _, line := range strings.Split(string(out), "\n") {
@@ -132,6 +138,10 @@ func tryReplay(w *world, o *vc.OblResult, ex *vc.Exec, rp *Replay) {
 func renderTest(p *vc.ReplayPlan) string {
 	var sb strings.Builder
 	fmt.Fprintf(&sb, "package %s\n\nimport (\n\t\"fmt\"\n\t\"testing\"\n", p.PkgName)
+	var decls strings.Builder
+	for i, a := range p.ArgExprs {
+		fmt.Fprintf(&decls, "\tvar a%d %s = %s\n", i, p.ArgTypes[i], a)
+	}
 	var paths []string
 	for path := range p.Imports {
 		paths = append(paths, path)
@@ -141,12 +151,15 @@ func renderTest(p *vc.ReplayPlan) string {
 		if path == "fmt" || path == "testing" {
 			continue
 		}
+		// only packages the generated text actually mentions (an unused import
+		// does not compile)
+		if !strings.Contains(decls.String()+p.Call, p.Imports[path]+".") {
+			continue
+		}
 		fmt.Fprintf(&sb, "\t%s %q\n", p.Imports[path], path)
 	}
 	sb.WriteString(")\n\n// generated by govc from a solver counterexample\nfunc TestGovcReplay(t *testing.T) {\n")
-	for i, a := range p.ArgExprs {
-		fmt.Fprintf(&sb, "\tvar a%d %s = %s\n", i, p.ArgTypes[i], a)
-	}
+	sb.WriteString(decls.String())
 	sb.WriteString("\tfunc() {\n\t\tdefer func() {\n\t\t\tif r := recover(); r != nil {\n\t\t\t\tfmt.Printf(\"GOVC-REPLAY PANIC: %v\\n\", r)\n\t\t\t}\n\t\t}()\n")
 	var rs []string
 	for i := 0; i < p.NumRes; i++ {
@@ -171,4 +184,70 @@ func renderTest(p *vc.ReplayPlan) string {
 	}
 	sb.WriteString("\t}()\n}\n")
 	return sb.String()
+}
+
+
+// cmdReplay re-runs the test stored in a replay file against the current
+// working tree of the repository.  Exit 1 when the recorded violating outcome
+// is reproduced, 0 when it is not (or the file holds no confirmed input).
+func cmdReplay(args []string) {
+	if len(args) != 1 {
+		fmt.Println("usage: govc replay <replay.json>")
+		os.Exit(2)
+	}
+	data, err := os.ReadFile(args[0])
+	if err != nil {
+		fmt.Println("ERROR", err)
+		os.Exit(2)
+	}
+	var rp Replay
+	if err := json.Unmarshal(data, &rp); err != nil {
+		fmt.Println("ERROR", err)
+		os.Exit(2)
+	}
+	fmt.Printf("property=%s obligation=%q kind=%s\n", rp.Property, rp.Obligation, rp.Kind)
+	if rp.Test == "" || !rp.Confirmed {
+		fmt.Println("the file holds no failing input (no-failing-input-found); solver verdict and script are in the file")
+		for _, n := range rp.Notes {
+			fmt.Println("  note:", n)
+		}
+		os.Exit(0)
+	}
+	dir, err := os.MkdirTemp("", "govc_replay_")
+	if err != nil {
+		fmt.Println("ERROR", err)
+		os.Exit(2)
+	}
+	defer os.RemoveAll(dir)
+	testFile := filepath.Join(dir, "replay_test.go")
+	os.WriteFile(testFile, []byte(rp.Test), 0o644)
+	target := filepath.Join(repo, rp.Package, "zz_govc_replay_test.go")
+	ov, _ := json.Marshal(map[string]interface{}{"Replace": map[string]string{target: testFile}})
+	ovFile := filepath.Join(dir, "overlay.json")
+	os.WriteFile(ovFile, ov, 0o644)
+	cmd := exec.Command("bash", "-c", fmt.Sprintf("ulimit -v 8000000; cd %s && go test -tags verif -overlay %s -vet=off -v -count=1 -timeout 60s -run '^TestGovcReplay$' ./%s 2>&1 | head -c 20000", repo, ovFile, rp.Package))
+	cmd.Env = append(os.Environ(), "GOFLAGS=-mod=mod", "GOPROXY=off", "GOSUMDB=off", "GOTOOLCHAIN=local")
+	out, _ := cmd.CombinedOutput()
+	var got []string
+	for _, line := range strings.Split(string(out), "\n") {
+		if strings.HasPrefix(line, "GOVC-REPLAY ") {
+			got = append(got, line)
+			fmt.Println(line)
+		}
+	}
+	same := len(got) == len(rp.Expect) && len(got) > 0
+	for i := range got {
+		if i < len(rp.Expect) && got[i] != rp.Expect[i] {
+			// panics carry addresses etc.: compare the kind of outcome only
+			if !(strings.HasPrefix(got[i], "GOVC-REPLAY PANIC") && strings.HasPrefix(rp.Expect[i], "GOVC-REPLAY PANIC")) {
+				same = false
+			}
+		}
+	}
+	if same {
+		fmt.Println("reproduced: the real code shows the recorded violating outcome on this input")
+		os.RemoveAll(dir)
+		os.Exit(1)
+	}
+	fmt.Println("not reproduced on the current tree")
 }
